@@ -2,8 +2,62 @@ CONFIG = dict(
         level='proof',
         streams=[dict(harness='c16', driver='c16', shrink_field='commits'),
                  dict(harness='c16m', driver='c16', shrink_field='ids')],
-        rule='TODO',
-        exhaustive_note='TODO',
-        assumptions=[],
-        trusted_base=[],
+        rule='stream c16: a commit list (Author.Name, Author.Email as byte strings) and the mode (ExactSignatures on/off) go through the real '
+             'identity.Detector: GeneratePeopleDict on commits of an in-memory repository without .mailmap, then Consume for every commit of '
+             'the list; recorded: PeopleDict (sorted by key), ReversedPeopleDict, the author indices. Kinds: exh1..3 (thorough ..4) = every list '
+             'over 12 signatures {a,A,b} x {a,E,e,""} (a name equal to an e-mail, case variants, empty e-mail) in both modes; dense / mid / '
+             'wide = random lists of 1..40 signatures over pools of 5..17 names and 5..14 e-mails with random ASCII case flips, empty fields, '
+             'names that are e-mails of others, "<", ">" and non-ASCII letters; crossed = e-mails drawn from the names; bars = names/e-mails '
+             'containing "|"; empty = the empty list (Go panics). Non-trivial = at least 2 commits and a lower-cased name or e-mail that '
+             'occurs twice. Stream c16m: a pair of identity lists goes through the real MergeReversedDictsIdentities (3 runs, answers must '
+             'agree) and MergeReversedDictsLiteral; recorded: the index map sorted by key and the merged list. Kinds: dom-exh4 = all 22 500 '
+             'pairs of lists of pairwise disjoint entries over the parts {a, b, x@, ""}; all-exh / f7-all-exh = all 3 249 pairs of lists of <=2 '
+             'entries over {a, b, x@} without the disjointness restriction (thorough also <=3 entries over {a, x@} and 150 000 sampled pairs '
+             'over 5 parts); dom-rand, dom-same (identical / permuted / truncated copies), dom-chain (a-b-c chains alternating between the '
+             'lists, broken or shuffled), dom-apart (nothing merges, one list empty), dom-namemail (sharing only a name / only an e-mail); '
+             'f7-* = a part occurs in two entries of ONE list (finding F7), kept apart by name. Non-trivial = at least 2 identities and a part '
+             'shared between the two lists. Distinct = distinct input fields.',
+        exhaustive_note='every commit list of length <=3 (thorough <=4) over 12 signatures x both modes; every pair of lists of pairwise disjoint '
+                        'entries over 4 parts (22 500 pairs); every pair of lists of <=2 arbitrary entries over 3 parts (3 249 pairs)',
+        assumptions=[
+            'strings.ToLower is modelled as an arbitrary function in every theorem (no hypothesis); the replay instantiates it with ASCII '
+            'lower-casing, which equals strings.ToLower on the generated strings: ASCII plus valid UTF-8 of characters that are not the '
+            'upper-case form of another character (a string such as "\\u00c9@x" would show up as a PeopleDict mismatch)',
+            'the repository has no .mailmap (the mailmap branch of GeneratePeopleDict is not modelled); the commit list is not empty '
+            '(Go panics on commits[len(commits)-1]; modelled as None and replayed)',
+            'merge theorems C16_merge_total/_components/_union/C16_pointers assume merge_domb rd1 rd2 = true: no part occurs in two different '
+            'entries of the same input list; C16_generated_lists_in_domain proves this for every ReversedPeopleDict produced by '
+            'GeneratePeopleDict from names and e-mails without "|"; outside it the statements are false (C16_merge_refuted, '
+            'C16_pointers_refuted = known finding F7)',
+            'Go map iteration (dict when filling ReversedPeopleDict, the pop order of the walk) is an arbitrary permutation in the theorems; '
+            'the replay uses the identity',
+        ],
+        trusted_base=[
+            'hand-written Gallina models coq/theories/Plumbing/Identity.v (GeneratePeopleDict both modes, Consume) and IdentityMerge.v '
+            '(MergeReversedDictsIdentities as written incl. the one-index-per-part vocabulary, MergeReversedDictsLiteral) of '
+            'internal/plumbing/identity/identity.go, tied to the code by the replay of every harness case (dictionaries, descriptions, '
+            'author indices, index maps and merged lists compared exactly)',
+            'Go strings (==, <, strings.Split/Join/ToLower/ContainsRune), sort.Strings / sort.Slice and go-git object.Commit.File are '
+            'modelled (IdStr.v), not verified',
+            're-exports /repo/verifapi/c16/c16.go (build tag verif)',
+        ],
+        level_text='Coq theorems over all commit lists x both modes x all map orders for the Gallina model of GeneratePeopleDict + Consume: '
+                   'C16_total (every author of the list resolves below the number of developers), C16_same_email / C16_same_signature '
+                   '(+ C16_same_name_and_email), C16_dict_keys, C16_description_exact / C16_description_exact_signatures (each description = '
+                   'sorted duplicate-free names | e-mails = exactly the keys attached to the developer), C16_developers_inhabited; and over all '
+                   'pairs of identity lists and all pop orders for MergeReversedDictsIdentities: C16_merge_returns (all inputs), and, in the '
+                   'domain "no part in two entries of one list", C16_merge_total, C16_merge_components (same Final <-> connected), '
+                   'C16_merge_union, C16_pointers; C16_generated_lists_in_domain (outputs of GeneratePeopleDict are in that domain); '
+                   'C16_merge_refuted / C16_pointers_refuted (the property is FALSE outside the domain: finding F7, confirmed on the Go code); '
+                   'soundness of the replay oracles (C16_oracle_*). All closed under the global context.',
+        level_note='Proved about the models, tied to the Go code by correspondence only. The merge half of the property as literally stated ("all pairs '
+                   'of identity lists with arbitrary overlaps") is refuted for the current code (F7, known finding; candidate fix in '
+                   'docs/C16-F7-candidate-fix.patch); it is proved on the sub-domain that GeneratePeopleDict guarantees. Modelled, not verified: Go '
+                   'string primitives, sort, maps, go-git. Not modelled: the .mailmap branch, LoadPeopleDict, Configure. MergeReversedDictsLiteral is '
+                   'modelled and replayed but has no theorem (it panics / mis-indexes when rd1 contains a duplicate string; observed, outside the '
+                   'property). "Names and e-mails attached to a developer" is formalised as: the keys of PeopleDict that map to it, listed under '
+                   'names if first seen as a name and under e-mails if first seen as an e-mail.',
+        technique='machine-checked proof in Coq over Gallina models (loop invariants for the dictionary construction; reachability closure, '
+                  'vocabulary correctness and component invariants for the merge) + refutation by vm_compute + model/implementation '
+                  'correspondence replay with extracted, proved-sound oracles',
     )
